@@ -320,10 +320,11 @@ def run(chk: Check, tier: str):
     # ---- unbounded companion of RowsOwnKey for the by-index plumbing, proved by the TLA+ proof system
     import tlaps
 
-    pr = tlaps.prove("ManagerLemma")
-    chk.cov["tlaps_ManagerLemma"] = {k: pr[k] for k in ("available", "proved", "refuted", "obligations", "wall_s")}
-    if pr["refuted"]:
-        machinery_failure("tlapm rejects an obligation of spec/ManagerLemma.tla:\n" + pr["out"])
+    for mod in ("ManagerLemma", "ManagerProof"):
+        pr = tlaps.prove(mod)
+        chk.cov["tlaps_" + mod] = {k: pr[k] for k in ("available", "proved", "refuted", "obligations", "wall_s")}
+        if pr["refuted"]:
+            machinery_failure(f"tlapm rejects an obligation of spec/{mod}.tla:\n" + pr["out"])
     # ---- histories on real managers
     n_rand = 240 if tier == "quick" else 2400
     scen = []
